@@ -102,7 +102,7 @@ def plan(tier, seed):
                     cases.append(_base('table', nxt(), io=[a, b], sc=[sc, sc], mitm=mitm,
                                        ikd=[7, 7], rkd=[7, 7]))
     # (2) sampled product
-    nmix = 420 if tier == 'quick' else 9000
+    nmix = 1600 if tier == 'quick' else 60000
     rng = random.Random(S ^ 0xC13)
     neg_kinds = ['ok', 'ok', 'ok', 'ok', 'wrong', 'none', 'compare-no', 'confirm-no', 'accept-no']
     for i in range(nmix):
@@ -137,7 +137,7 @@ def plan(tier, seed):
         'pk-both': (rs.KEYBOARD_ONLY, rs.KEYBOARD_ONLY), 'nc-or-pk': (rs.KEYBOARD_DISPLAY, rs.KEYBOARD_DISPLAY),
         'nc-or-jw': (rs.DISPLAY_YES_NO, rs.DISPLAY_YES_NO), 'jw': (rs.NO_INPUT_NO_OUTPUT, rs.KEYBOARD_DISPLAY),
     }
-    reps = 1 if tier == 'quick' else 6
+    reps = 1 if tier == 'quick' else 10
     for _rep in range(reps):
         for sc in (False, True):
             for mname, io in model_io.items():
@@ -184,7 +184,7 @@ def plan(tier, seed):
                                 delay=rng.choice([0, 1, 3]), ikd=[rng.choice([0, 3, 7]), 7], rkd=[7, rng.choice([0, 3, 7])]))
     # (4) reconnection after bonding
     kds = [(1, 1), (3, 3), (7, 7), (1, 0), (0, 1), (2, 3), (15, 15), (0, 0)]
-    nrec = 1 if tier == 'quick' else 8
+    nrec = 1 if tier == 'quick' else 12
     for _rep in range(nrec):
         for sc in (False, True):
             for (ik, rk) in kds:
@@ -380,12 +380,27 @@ class World:
                                 oob=oob[i])
             self.configs.append(cfg)
             d.pairing_config_factory = lambda connection, _c=cfg: _c
+            d.smp_session_proxy = self.spy_class(i)
         await rg.power_on()
         self.handle_of = {}
         self.provider_answers = []   # (seq of the command, asked device, rand, ediv, answer)
         rg.on_hci_logged.append(self.on_logged)
         self.tamper_hits = 0
         return self
+
+    def spy_class(self, i):
+        """Session subclass that only records the instances (observation of the method each
+        state machine says it selected; never used to predict anything)."""
+        from bumble import smp
+        world = self
+        world.sessions = getattr(world, 'sessions', {0: [], 1: []})
+
+        class Spy(smp.Session):
+            def __init__(self, *a, **k):
+                super().__init__(*a, **k)
+                world.sessions[i].append(self)
+
+        return Spy
 
     def make_oob(self):
         from bumble import crypto
@@ -676,6 +691,14 @@ async def le_case(case, r: R):
             r.check(ok, f'pairing/model-wrong/{mode}/{iokey}' + ('' if (case['mitm'][C] or case['mitm'][P]) else '/no-mitm'),
                     f'Table 2.8 says {exp_model} (initiator {exp_roles[0]}, responder {exp_roles[1]}); delegates were asked: '
                     f'initiator {roles[C]} {users.calls[C]}, responder {roles[P]} {users.calls[P]}; {desc}')
+            meth = {}
+            for i in (C, P):
+                if w.sessions[i]:
+                    meth[i] = w.sessions[i][-1].pairing_method.name.lower().replace('_', '-')
+            if len(meth) == 2:
+                r.ev('session_method_checks')
+                r.check(meth[C] == meth[P] == exp_model, f'pairing/model-wrong/{mode}/{iokey}/session-method',
+                        f'sessions recorded initiator={meth[C]} responder={meth[P]}, Table 2.8 says {exp_model}; {desc}')
             if obs_model == rs.PASSKEY:
                 comp = sorted((roles[C], roles[P])) in ([rs.R_DISPLAY, rs.R_INPUT], [rs.R_INPUT, rs.R_INPUT])
                 r.check(comp, f'pairing/roles-not-complementary/{mode}/{iokey}',
